@@ -36,14 +36,22 @@ impl<'a> WireFormat<'a> for NSEC<'a> {
         let mut type_bit_maps = Vec::new();
 
         while data.len() > *position {
+            if data.len() < *position + 2 {
+                return Err(crate::SimpleDnsError::InsufficientData);
+            }
+
             let window_block = data[*position];
             *position += 1;
-            if type_bit_maps.last().is_some_and(|f: &TypeBitMap<'_>| f.window_block - 1 != window_block) {
+            if type_bit_maps.last().is_some_and(|f: &TypeBitMap<'_>| f.window_block.wrapping_sub(1) != window_block) {
                 return Err(crate::SimpleDnsError::AttemptedInvalidOperation);
             }
 
             let bitmap_length = data[*position];
             *position += 1;
+
+            if data.len() < *position + bitmap_length as usize {
+                return Err(crate::SimpleDnsError::InsufficientData);
+            }
 
             let bitmap = &data[*position..*position + bitmap_length as usize];
             *position += bitmap_length as usize;
